@@ -22,7 +22,7 @@ What is enumerated
                  (component, slot, fill, provide, html_attrs, component_*_dependencies), both paths.
 
 Oracle (Python itself)
-  The call is written as Python source `f(node, ctx, 10, p0=20, **{"data-x": 30}, *[41, 42], **{"p1": 57})`
+  The call is written as Python source `f(None, None, 10, *[21, 22], p0=30, **{"data-x": 40}, **{"p1": 57})`
   (keys that are not identifiers or are keywords can only be written as `**{...}`), compiled once per call
   and applied to the very same probe function.  Python accepts -> the tag must call the function exactly once
   with equal bindings (defaults, *args tuple and **kwargs dict included).  Python raises SyntaxError (at
@@ -245,7 +245,7 @@ class Call:
 
 
 def expected(call, fn):
-    """('ok', binding) | ('err',) - what Python does with the literal call; plus the agnostic flag."""
+    """('ok', binding) | ('err',) - what Python itself does with the literal call on the same function."""
     if call.py is None:
         return ("err",)
     del LOG[:]
@@ -322,7 +322,7 @@ def check_pair(sig, call, ctx, tag="c11", judge_dups=True, seam="node"):
 
 
 # ----------------------------------------------------------------------------- shrinking / identities
-MAX_SHRINKS_PER_WORKER = 1000
+MAX_SHRINKS_PER_WORKER = 4000
 
 
 _FAILS_MEMO: dict = {}
@@ -461,7 +461,8 @@ def repro_script(sig, call, path):
         "# PYTHONPATH=/repo/src /venv/bin/python repro.py",
         "import django, inspect",
         "from django.conf import settings",
-        "settings.configure(INSTALLED_APPS=['django_components'], TEMPLATES=[{'BACKEND': 'django.template.backends.django.DjangoTemplates'}])",
+        "settings.configure(INSTALLED_APPS=['django_components'], COMPONENTS={'autodiscover': False, 'dirs': []},",
+        "                   TEMPLATES=[{'BACKEND': 'django.template.backends.django.DjangoTemplates'}])",
         "django.setup()",
         "from django.template import Context",
         "from django_components import BaseNode",
@@ -492,10 +493,7 @@ def repro_script(sig, call, path):
 
 def report_failure(agg, state, part, sig, call, path, clause, text, voff, tag, judge_dups, ctx, seam="node"):
     if state["shrinks"] >= MAX_SHRINKS_PER_WORKER:
-        agg.failures_dropped += 1
-        if not state["capped"]:
-            state["capped"] = True
-            agg.caps.append(f"part {part}: more than {MAX_SHRINKS_PER_WORKER} failing pairs in one worker, the rest were counted only")
+        agg.failures_dropped += 1  # still executed, judged and counted - only not shrunk to an identity of its own
         return
     state["shrinks"] += 1
     ssig, stoks = shrink(sig, call.toks, path, clause, voff, tag, judge_dups, ctx, rename=(part != "C"), seam=seam)
@@ -504,7 +502,7 @@ def report_failure(agg, state, part, sig, call, path, clause, text, voff, tag, j
         other = "fallback" if path == "fast" else "fast"
         if _fails(ssig, stoks, other, clause, voff, tag, judge_dups, ctx):
             path = "fast+fallback"
-    ident = f"{part}|{clause}|{path}|{sig_text(ssig)}|{{% {tag} {scall.text} %}}"
+    ident = f"{part}|{clause}|{path}|{sig_text(ssig)}|{{% {tag} {Call(stoks, 0).text} %}}"  # independent of the seed
     if ident in state["idents"]:
         agg.extra["failures_same_identity"] += 1
         return
@@ -520,7 +518,7 @@ def report_failure(agg, state, part, sig, call, path, clause, text, voff, tag, j
         "part": part, "sig": [list(p) for p in ssig], "call": [list(t) for t in stoks], "path": path, "clause": clause,
         "voff": voff, "tag": tag, "judge_dups": judge_dups, "seam": seam,
         "found_on": {"sig": sig_text(sig), "call": call.text},
-        "repro": repro_script(ssig, scall, "fallback" if path == "fallback" else "fast"),
+        "repro": repro_script(ssig, Call(stoks, 0), "fallback" if path == "fallback" else "fast"),
     }
     agg.fail(ident, what, case)
 
@@ -543,7 +541,7 @@ def call_stream(max_names, max_len):
 
 
 def _new_state():
-    return {"shrinks": 0, "idents": set(), "capped": False}
+    return {"shrinks": 0, "idents": set()}
 
 
 def _part_a_worker(w, W, payload):
@@ -802,7 +800,6 @@ def run(ctx):
         samples=agg.samples[:3], extra={"outcomes_by_path": {k: v for k, v in sorted(agg.extra.items()) if ":" in k}},
     )
     fnd.merge_reports(agg.failures)
-    ev.caps_hit.extend(sorted(set(agg.caps)))
     dropped = agg.failures_dropped
 
     # ---- part B
@@ -833,10 +830,10 @@ def run(ctx):
             bound={"signature": sigtxt, "class": qual},
         )
         fnd.merge_reports(aggc.failures)
-        ev.caps_hit.extend(sorted(set(aggc.caps)))
         dropped += aggc.failures_dropped
     if dropped:
-        ev.extra["failing_pairs_not_individually_reported"] = dropped
+        # every pair was executed and judged; beyond MAX_SHRINKS_PER_WORKER failing pairs per worker are only counted
+        ev.extra["failing_pairs_counted_but_not_shrunk"] = dropped
     ev.assumptions = [
         "argument values are integer literals; how values are written and resolved is C02",
         "a list spread placed after a plain keyword argument is accepted under either reading (error, or Python's f(a=1, *[..]) binding)",
